@@ -45,6 +45,8 @@ META = {
 
 KINDS = ["other", "invalid_data", "unexpected_eof", "broken_pipe"]
 MARK = "INJECTED-READ-FAULT@"
+import re
+POS = re.compile(r"(line \d+ column \d+|position \d+|offset \d+|byte \d+)")
 
 
 def reader_inputs(tier, rng):
@@ -101,7 +103,9 @@ def run_reader_faults(outcome, tier, seed):
         # an error: it is the reader's (text preserved), unless the fault-free run already fails with an error that is met
         # before byte k is needed (then the same error text as the fault-free run is right)
         if (MARK + str(k)) not in r[1]:
-            if not (base[0] == "err" and r[1] == base[1]):
+            # the translation may fail for its own reason before byte k is needed: then the fault-free error is right
+            # (parsers report a position that depends on their look-ahead, so positions are not compared)
+            if not (base[0] == "err" and POS.sub("", r[1]) == POS.sub("", base[1])):
                 outcome.oracle_failures.append(dict(info, what="the reader's error text is not preserved in the message"))
                 continue
         if not shared.is_prefix_comparable(r[2], base[2]) or len(r[2]) > len(base[2]) and base[0] == "ok":
